@@ -67,7 +67,7 @@ impl TableDef {
                 s.push_str(" UNIQUE");
             }
             if let Some(d) = &c.default {
-                s.push_str(&format!(" DEFAULT {}", d.sql()));
+                s.push_str(&format!(" DEFAULT {}", default_sql(d)));
             }
             if let Some(ch) = &c.check {
                 s.push_str(&format!(" CHECK ({})", strip_outer_parens(&ch.sql())));
@@ -84,6 +84,21 @@ impl TableDef {
             parts.push(format!("PRIMARY KEY ({})", self.pk.join(", ")));
         }
         format!("CREATE TABLE {} ({})", self.name, parts.join(", "))
+    }
+}
+
+/// DEFAULT takes a (signed) literal: `DEFAULT -2`, not the parenthesised form used inside expressions
+pub fn default_sql(v: &V) -> String {
+    match v {
+        V::Int(i) => format!("{}", i),
+        V::Float(f) => {
+            if f.fract() == 0.0 && f.abs() < 1e15 {
+                format!("{:.1}", f)
+            } else {
+                format!("{}", f)
+            }
+        }
+        other => other.sql(),
     }
 }
 
@@ -194,6 +209,9 @@ pub struct State {
     pub tables: BTreeMap<String, (TableDef, Vec<Row>)>,
     /// next AUTO_INCREMENT value per table
     pub autoinc: BTreeMap<String, i64>,
+    /// rows removed by DELETE (or cascades) since the table was created / truncated. Pure bookkeeping for
+    /// diagnosis ("the extra row TurDB shows is a row that was deleted earlier"); never consulted by `apply`.
+    pub gone: BTreeMap<String, Vec<Row>>,
 }
 
 #[derive(Clone, Debug, Default)]
@@ -204,6 +222,9 @@ pub struct MDb {
     pub savepoints: Vec<(String, State)>,
     /// every value an AUTO_INCREMENT column ever held (C12 monitor): table -> set
     pub ever_held: BTreeMap<String, BTreeSet<i64>>,
+    /// tables whose AUTO_INCREMENT counter is not determined any more (SQL/README do not say whether a
+    /// rolled-back or failed statement consumes values): generating a value there is `Unsupported`
+    pub ai_uncertain: BTreeSet<String>,
 }
 
 /// which constraint made the model reject a statement (for signatures)
@@ -282,6 +303,21 @@ impl MDb {
         Ok(())
     }
 
+    /// for a uniqueness failure of an INSERT: is the duplicate among the new rows themselves (`within_statement`)
+    /// or with a row that existed before (`with_existing`)?
+    fn tag_dup_scope(&self, e: MErr, snap: &State, k: &str, n_old: usize) -> MErr {
+        match e {
+            MErr::Error(m) if m.contains("primary_key") || m.contains("unique") => {
+                let mut only_new = snap.clone();
+                let t = only_new.tables.get_mut(k).unwrap();
+                t.1 = t.1[n_old..].to_vec();
+                let within = self.check_table(&only_new, k).is_err();
+                MErr::Error(format!("{}:{}", m, if within { "within_statement" } else { "with_existing" }))
+            }
+            other => other,
+        }
+    }
+
     fn check_fks(&self, st: &State) -> Result<(), MErr> {
         for (_, (def, rows)) in &st.tables {
             for fk in &def.fks {
@@ -307,9 +343,69 @@ impl MDb {
     /// apply a statement; Err(Error) = SQL must reject it (state unchanged); Err(Unsupported) = not judged
     pub fn apply(&mut self, s: &Stmt) -> Result<Effect, MErr> {
         let mut st = self.st.clone();
-        let eff = self.apply_to(&mut st, s)?;
-        self.st = st;
-        Ok(eff)
+        match self.apply_to(&mut st, s) {
+            Ok(eff) => {
+                self.st = st;
+                Ok(eff)
+            }
+            Err(e) => {
+                // a failed INSERT that had already drawn AUTO_INCREMENT values: whether they are consumed is open
+                if let (MErr::Error(_), Stmt::Insert { table, .. }) = (&e, s) {
+                    let k = table.to_lowercase();
+                    if st.autoinc.get(&k) != self.st.autoinc.get(&k) {
+                        self.ai_uncertain.insert(k);
+                    }
+                }
+                Err(e)
+            }
+        }
+    }
+
+    /// for a multi-row INSERT the model rejects: (index of the first row whose prefix makes the statement
+    /// fail, number of rows). None if the statement is not a rejected INSERT.
+    pub fn first_failing_row(&self, s: &Stmt) -> Option<(usize, usize)> {
+        if let Stmt::Insert { table, cols, rows, returning } = s {
+            for k in 0..rows.len() {
+                let prefix = Stmt::Insert { table: table.clone(), cols: cols.clone(), rows: rows[..=k].to_vec(), returning: *returning };
+                let mut m = self.clone();
+                if let Err(MErr::Error(_)) = m.apply(&prefix) {
+                    return Some((k, rows.len()));
+                }
+            }
+        }
+        None
+    }
+
+    /// constraint kinds violated by an arbitrary state (used on the state dumped from TurDB): every declared
+    /// PK/UNIQUE/NOT NULL/CHECK/FK is evaluated; returns e.g. ["t1:foreign_key", "t0:unique"]
+    pub fn state_violations(&self, rows: &BTreeMap<String, Vec<Row>>) -> Vec<String> {
+        let mut st = self.st.clone();
+        for (k, r) in rows {
+            if let Some(t) = st.tables.get_mut(k) {
+                t.1 = r.clone();
+            }
+        }
+        let mut out = vec![];
+        let names: Vec<String> = st.tables.keys().cloned().collect();
+        for k in &names {
+            if let Err(MErr::Error(e)) = self.check_table(&st, k) {
+                out.push(format!("{}:{}", k, e.replace("constraint:", "")));
+            }
+        }
+        // per child table FK check
+        for k in &names {
+            let mut one = State::default();
+            one.tables = st.tables.clone();
+            for (kk, t) in one.tables.iter_mut() {
+                if kk != k {
+                    t.0.fks.clear();
+                }
+            }
+            if let Err(MErr::Error(e)) = self.check_fks(&one) {
+                out.push(format!("{}:{}", k, e.replace("constraint:", "")));
+            }
+        }
+        out
     }
 
     fn apply_to(&mut self, st: &mut State, s: &Stmt) -> Result<Effect, MErr> {
@@ -338,6 +434,7 @@ impl MDb {
                 }
                 st.tables.remove(&k);
                 st.autoinc.remove(&k);
+                st.gone.remove(&k);
                 Ok(Effect::default())
             }
             Stmt::CreateIndex { name, table, cols, unique } => {
@@ -374,6 +471,7 @@ impl MDb {
                 let def = st.tables.get(&k).ok_or_else(|| MErr::Error("no such table".into()))?.0.clone();
                 let names: Vec<String> = cols.clone().unwrap_or_else(|| def.col_names());
                 let mut new_rows = vec![];
+                let (mut saw_explicit_ai, mut saw_generated_ai) = (false, false);
                 for r in rows {
                     if r.len() != names.len() {
                         return Err(MErr::Error("column count mismatch".into()));
@@ -386,19 +484,41 @@ impl MDb {
                         row[i] = Self::coerce(v, def.cols[i].ty)?;
                         given[i] = true;
                     }
+                    // TurDB dialect (pinned by its own test suite, tests/prepared_statement_constraints.rs
+                    // `prepared_insert_applies_default_for_explicit_null`): an explicit NULL written into a column that
+                    // has a DEFAULT stores the default, exactly like an omitted column. Consequently a NOT NULL DEFAULT
+                    // column accepts NULL, and CHECK / FK are evaluated on the default.
+                    for (i, c) in def.cols.iter().enumerate() {
+                        if given[i] && row[i].is_null() && !c.auto_inc {
+                            if let Some(d) = &c.default {
+                                row[i] = d.clone();
+                            }
+                        }
+                    }
                     // AUTO_INCREMENT: NULL / omitted -> next value; explicit value above the counter advances it
                     for (i, c) in def.cols.iter().enumerate() {
                         if c.auto_inc {
                             let ctr = st.autoinc.entry(k.clone()).or_insert(1);
                             match &row[i] {
                                 V::Null => {
-                                    if given[i] && false {
-                                        unreachable!();
+                                    if self.ai_uncertain.contains(&k) {
+                                        return Err(MErr::Unsupported("AUTO_INCREMENT value after a rolled-back / failed statement".into()));
                                     }
+                                    if saw_explicit_ai {
+                                        return Err(MErr::Unsupported("explicit and generated AUTO_INCREMENT values in one statement".into()));
+                                    }
+                                    saw_generated_ai = true;
                                     row[i] = V::Int(*ctr);
                                     *ctr += 1;
                                 }
                                 V::Int(x) => {
+                                    if *x <= 0 {
+                                        return Err(MErr::Unsupported("non-positive explicit AUTO_INCREMENT value".into()));
+                                    }
+                                    if saw_generated_ai {
+                                        return Err(MErr::Unsupported("explicit and generated AUTO_INCREMENT values in one statement".into()));
+                                    }
+                                    saw_explicit_ai = true;
                                     if *x >= *ctr {
                                         *ctr = *x + 1;
                                     }
@@ -412,9 +532,12 @@ impl MDb {
                     }
                     new_rows.push(row);
                 }
+                let n_old = st.tables[&k].1.len();
                 st.tables.get_mut(&k).unwrap().1.extend(new_rows.iter().cloned());
                 let snap = st.clone();
-                self.check_table(&snap, &k)?;
+                if let Err(e) = self.check_table(&snap, &k) {
+                    return Err(self.tag_dup_scope(e, &snap, &k, n_old));
+                }
                 self.check_fks(&snap)?;
                 Ok(Effect { rows_affected: Some(new_rows.len()), returning: if *returning { Some(new_rows) } else { None } })
             }
@@ -443,14 +566,20 @@ impl MDb {
                         out.push(r.clone());
                     }
                 }
-                // updates of referenced parent keys: not modelled (ON UPDATE actions)
-                let referenced: Vec<usize> = st.tables.values().flat_map(|(d, _)| d.fks.iter().filter(|f| f.ref_table.eq_ignore_ascii_case(table)).map(|f| def.col_idx(&f.ref_col).unwrap()).collect::<Vec<_>>()).collect();
-                if sets.iter().any(|(c, _)| referenced.contains(&def.col_idx(c).unwrap_or(usize::MAX))) {
-                    return Err(MErr::Unsupported("update of a referenced key".into()));
-                }
+                // an UPDATE of a referenced parent key is judged like any other write: no ON UPDATE action is ever
+                // declared by the generator (default NO ACTION), so it is valid iff no child is orphaned afterwards
                 st.tables.get_mut(&k).unwrap().1 = out;
                 let snap = st.clone();
-                self.check_table(&snap, &k)?;
+                if let Err(e) = self.check_table(&snap, &k) {
+                    // duplicate only among the rows this statement wrote?
+                    let mut only_new = snap.clone();
+                    only_new.tables.get_mut(&k).unwrap().1 = changed.clone();
+                    let within = self.check_table(&only_new, &k).is_err();
+                    return Err(match e {
+                        MErr::Error(m) if m.contains("primary_key") || m.contains("unique") => MErr::Error(format!("{}:{}", m, if within { "within_statement" } else { "with_existing" })),
+                        other => other,
+                    });
+                }
                 self.check_fks(&snap)?;
                 Ok(Effect { rows_affected: Some(n), returning: if *returning { Some(changed) } else { None } })
             }
@@ -471,6 +600,7 @@ impl MDb {
                     }
                 }
                 st.tables.get_mut(&k).unwrap().1 = keep;
+                st.gone.entry(k.clone()).or_default().extend(gone.iter().cloned());
                 // FK actions on children
                 self.cascade_delete(st, &def, &gone)?;
                 let snap = st.clone();
@@ -486,6 +616,7 @@ impl MDb {
                     return Err(MErr::Unsupported("truncate of a referenced table".into()));
                 }
                 st.tables.get_mut(&k).unwrap().1.clear();
+                st.gone.remove(&k);
                 Ok(Effect::default())
             }
             Stmt::Begin => {
@@ -512,6 +643,9 @@ impl MDb {
                     *st = snap;
                     for (k, v) in ctr {
                         if let Some(c) = st.autoinc.get_mut(&k) {
+                            if *c != v {
+                                self.ai_uncertain.insert(k.clone());
+                            }
                             *c = (*c).max(v);
                         }
                     }
@@ -537,6 +671,9 @@ impl MDb {
                         *st = self.savepoints[p].1.clone();
                         for (k, v) in ctr {
                             if let Some(c) = st.autoinc.get_mut(&k) {
+                                if *c != v {
+                                    self.ai_uncertain.insert(k.clone());
+                                }
                                 *c = (*c).max(v);
                             }
                         }
@@ -581,11 +718,51 @@ impl MDb {
                 FkAction::Cascade => {
                     let (keep, removed): (Vec<Row>, Vec<Row>) = crows.into_iter().partition(|r| !refs(r));
                     st.tables.get_mut(&ck).unwrap().1 = keep;
+                    st.gone.entry(ck.clone()).or_default().extend(removed.iter().cloned());
                     self.cascade_delete(st, &cdef, &removed)?;
                 }
             }
         }
         Ok(())
+    }
+}
+
+/// truth value of a column-level CHECK for one candidate value of its column (None = NULL/undecided)
+pub fn check_truth(ch: &E, col_name: &str, v: &V) -> Option<bool> {
+    let tables = BTreeMap::new();
+    let mut env = Env::new(&tables);
+    env.frames.push(vec![Binding { alias: "t".into(), cols: vec![col_name.to_string()], row: vec![v.clone()] }]);
+    match ch.eval(&mut env) {
+        Ok(x) => x.truth(),
+        Err(_) => None,
+    }
+}
+
+/// coarse syntactic form of a CHECK expression (signature feature: CHECK evaluation in TurDB is string based)
+pub fn check_form(e: &E) -> String {
+    use super::expr::BinOp;
+    match e {
+        E::Bin(BinOp::And, _, _) => "and".into(),
+        E::Bin(BinOp::Or, _, _) => "or".into(),
+        E::Bin(op, a, _) if op.is_cmp() => {
+            let rev = !matches!(**a, E::Col { .. });
+            let o = match op {
+                BinOp::Eq => "eq",
+                BinOp::Ne => "ne",
+                BinOp::Lt | BinOp::Le | BinOp::Gt | BinOp::Ge => "ineq",
+                _ => "cmp",
+            };
+            if rev {
+                format!("{}_reversed", o)
+            } else {
+                o.into()
+            }
+        }
+        E::Between(_, _, _, n) => if *n { "not_between".into() } else { "between".into() },
+        E::InList(_, _, n) => if *n { "not_in".into() } else { "in".into() },
+        E::Not(_) => "not".into(),
+        E::IsNull(..) => "is_null".into(),
+        _ => "other".into(),
     }
 }
 
